@@ -849,6 +849,16 @@ fn check_c09(cases: &[Case], results: &[Option<RunResult>]) -> Vec<Violation> {
             }
         });
         let _ = table_styled;
+        // a hard-wrapped piece of a longer word can coincide with a shorter token ("qcyu" inside
+        // "qqcyu"): tokens that occur inside another token are not judged
+        {
+            let all: Vec<String> = expect.keys().cloned().collect();
+            for t in &all {
+                if all.iter().any(|u| u != t && u.contains(t.as_str())) {
+                    dup.insert(t.clone());
+                }
+            }
+        }
         'outer: for l in lines {
             for e in l {
                 if let Elem::Str(s, tag) = e {
